@@ -1,4 +1,5 @@
 import MindsVerif.Model.PlanQ
+import MindsVerif.Model.PlanSizes
 /-! Line protocol driver for the plan-bookkeeping model (`fromQuery` over the skeleton language).
 input : <fixed 0|1> <stmt>
   stmt ::= (sel <sel>) | (cta <sel>) | (ct <0|1>) | (ins <sel>) | (insv) | (upd <sel>) | (upd0) | (del <sel>) | (oth)
@@ -7,6 +8,8 @@ input : <fixed 0|1> <stmt>
          | (dat <wrap> <u>) | (ts <grouped> <two> <cte> <limit> <star> <u>) | (jt <sel> <wrap> <u>) | (dml <kind> <u>)
          | (T <cte> (d <nat>*) <u>) | (M <ts> <psize>) | (S <aliased> <sel>) | (j <sel> <sel>)
   u    ::= (u <nat>*)        indexes into the environment of bound results, 0 = innermost `bind`
+      | sz <j|s|f> (sizes <nat>*) (jt <sel> <wrap> <u>)     the join planner with per-model partition sizes (operand index ↦
+        size; `Model/PlanSizes.lean`): j = joinOpen (the code as it is), s = splitStale, f = splitFresh (hypothetical variants)
 output: ok <answer> <step>;<step>;…     with step = kind:num:ref,ref,…:sub|sub|…  (sub = kind:num:ref,…)
       | err planning | err notimpl | err internal | bad-line -/
 open MindsVerif.Plan
@@ -176,10 +179,30 @@ def handleCte (toks : List String) : String :=
     | _ => "bad-line"
   | _ => "bad-line"
 
+/-- `sz <policy> (sizes n*) (jt tree wrap (u))` -/
+def handleSz (toks : List String) : String :=
+  match toks with
+  | p :: "(" :: "sizes" :: rest =>
+    let pol? : Option SizePolicy := if p == "j" then some .joinOpen else if p == "s" then some .splitStale
+      else if p == "f" then some .splitFresh else none
+    match pol?, readNats rest [] with
+    | some pol, some (sz, rest) =>
+      match readSel rest with
+      | some (.joinTables t wrap _, []) =>
+        match planJoinZ pol (sizesOf sz) (den true t []).2 wrap [] [] with
+        | .ok (plan, x) => s!"ok {showNum x} " ++ ";".intercalate (plan.map showStep)
+        | .error (.planning _) => "err planning"
+        | .error (.notImpl _) => "err notimpl"
+        | .error (.internal _) => "err internal"
+      | _ => "bad-line"
+    | _, _ => "bad-line"
+  | _ => "bad-line"
+
 def handle (line : String) : String :=
   let padded := ((line.trimAscii.toString).replace "(" " ( ").replace ")" " ) "
   match (padded.splitOn " ").filter (· ≠ "") with
   | "cte" :: rest => handleCte rest
+  | "sz" :: rest => handleSz rest
   | fx :: rest =>
     match readBool fx, readStmt rest with
     | some fixed, some q =>
